@@ -104,6 +104,8 @@ theorem walkLoop_spec {img : Img} (hw : WF img) :
     | zero => omega
     | succ fuel =>
       unfold walkLoop getnext
+      have hnn : ¬ ((idx : Int) < 0) := by omega
+      simp only [hnn, if_false]
       have hsz : img.slots.size = img.n := rfl
       rw [getnextLoop_spec hw k (img.slots.size + 1) idx hk (by omega)]
       simp only [bind, Except.bind]
